@@ -76,6 +76,13 @@ def cases(rng, tier):
             if rng.random() < 0.5:
                 corner = tuple(x + rng.uniform(-4e-5, 4e-5) for x in corner)
             yield ("kak", {"gate": "weyl", "params": list(corner), "seeds": [rng.randrange(10 ** 6) for _ in range(4)]})
+    # a basis obtained earlier was edited in place (operations inserted into / appended to its per-qubit lists, as callers do for
+    # pre/post rotations); a basis requested afterwards must be untouched by that
+    edits = [("move", [], "move", []), ("cx", [], "cz", []), ("rzz", [0.7], "rzz", [0.7]), ("swap", [], "iswap", []), ("cs", [], "csdg", []),
+             ("crx", [1.1], "cry", [1.1]), ("move", [], "cx", []), ("ecr", [], "ecr", [])]
+    for g1, p1, g2, p2 in (rng.sample(edits, 4) if tier == "quick" else edits * 3):
+        yield ("gate", {"gate": g2, "params": p2, "edit_first": {"gate": g1, "params": p1, "side": rng.randrange(2),
+                                                                   "op": rng.choice(["s", "h", "x"]), "front": rng.random() < 0.5}})
     for bad in ["h", "ccx", "unbound_rzz", "unbound_cp", "opaque2q", "measure", "barrier2", "unbound_unitary_like"]:
         yield ("refuse", {"gate": bad})
 
@@ -167,10 +174,27 @@ def _canon_maps(maps, strip):
     return out
 
 
+def _edit_first(payload):
+    """obtain a basis for another (or the same) gate and edit its per-qubit operation lists in place"""
+    from qiskit_addon_cutting.qpd import QPDBasis
+    e = payload.get("edit_first")
+    if not e:
+        return
+    b1 = QPDBasis.from_instruction(_gate({"gate": e["gate"], "params": e["params"]}))
+    seen = set()
+    for m in b1.maps:
+        side = m[e["side"]]
+        if isinstance(side, list) and id(side) not in seen:
+            seen.add(id(side))
+            op = canon.mk_op(e["op"])
+            side.insert(0, op) if e["front"] else side.append(op)
+
+
 def run_real(kind, payload):
     from qiskit_addon_cutting.qpd import QPDBasis
     from ..oracles import channel
     g = _gate(payload)
+    _edit_first(payload)
     b = QPDBasis.from_instruction(g)
     if kind == "refuse":
         return {"ok": "basis produced"}
@@ -263,6 +287,7 @@ def oracle(kind, payload):
             return f"unsupported instruction {payload['gate']} raised {type(ex).__name__} instead of ValueError"
         return f"unsupported instruction {payload['gate']} yielded a basis"
     try:
+        _edit_first(payload)
         err, b = channel.exactness_error(g)
     except Exception as ex:
         return f"supported instruction {payload['gate']}{payload.get('params')} raised {type(ex).__name__}: {ex}"
